@@ -486,6 +486,19 @@ def _is_failure_value(e):
     return e.get("k") == "Path" and (e.get("path") or "").rsplit("::", 1)[-1] == "None" and (e.get("ty") or "").startswith(("std::option::Option<", "core::option::Option<"))
 
 
+def _binding_arms(arms):
+    """every arm's pattern is a plain binding or `_`; all but the last carry a guard, the last does not"""
+    if len(arms) < 2:
+        return False
+    for i, a in enumerate(arms):
+        p = a["pat"]
+        if not (p.get("k") == "Wild" or (p.get("k") == "Binding" and not p.get("sub"))):
+            return False
+        if bool(a.get("guard")) != (i < len(arms) - 1):
+            return False
+    return True
+
+
 def _literal_match(arms):
     """<= 3 arms, each a string/char/bool/int literal (or an or-pattern of them) except a final wildcard / binding: reads as an
     if / else-if chain of equality tests. Larger matches are tables and stay opaque."""
@@ -639,6 +652,14 @@ class NF:
                 # `matches!(x, P)`: a test of the shape of x
                 t = ("islet", arms[0][0], scrut)
                 return t if arms[0][1][1] else ("not", t)
+            if _binding_arms(e["arms"]):
+                # `match v { x if g(x) => a, y => b }`: every pattern takes anything, the guards choose
+                v = arms[-1][1]
+                for a, (_, val) in reversed(list(zip(e["arms"], arms))[:-1]):
+                    env_a = env.child()
+                    bind_pattern(a["pat"], scrut, env_a)
+                    v = ("ifelse", self.nf(a["guard"], env_a), val, v)
+                return v
             if _literal_match(e["arms"]):
                 v = arms[-1][1]
                 for a, (_, val) in reversed(list(zip(e["arms"], arms))[:-1]):
@@ -1053,6 +1074,8 @@ class NF:
                 hty = a.get("ty") or "?"
                 if a.get("k") == "Path" and a.get("res") == "local" and a.get("id") in getattr(self, "_shown_ty", {}) and h["trait"] == "display":
                     hty = self._shown_ty[a["id"]]
+                for gname, gty in (getattr(self, "_tymap", None) or {}).items():
+                    hty = re.sub(r"\b" + re.escape(gname) + r"\b", gty, hty)      # inside `helper::<i32>`: a hole of type T is an i32
                 parts.append(("hole", v, h["trait"], hty))
         merged = []
         for p in parts:
@@ -1148,9 +1171,18 @@ def _concrete_type_of(e):
     return t
 
 
+def _plain_local(e):
+    e = H.strip(e)
+    while e.get("k") == "AddrOf" or (e.get("k") == "Unary" and e.get("op") == "Deref"):
+        e = H.strip(e["e"])
+    return e.get("id") if e.get("k") == "Path" and e.get("res") == "local" else None
+
+
 def _sink_type(ty):
     """the type of a parameter through which a writer function receives the output sink"""
     t = ty.replace("&mut ", "").replace("&", "").strip()
+    if ty.replace(" ", "").replace("alloc::", "std::") == "&mutstd::string::String":
+        return True      # a text buffer handed in to be appended to
     return t == "W" or "std::fmt::Formatter" in t or "dyn std::io::Write" in t or "dyn std::fmt::Write" in t or (t.isidentifier() and t[:1].isupper() and len(t) <= 3)
 
 
@@ -1458,7 +1490,12 @@ class Extractor:
         self.F = facts
         self.lib = facts.lib
         self.NF = NF(facts)
+        self._buffers = {}       # local id -> name: text buffers that are filled piecewise and written to the sink as a whole
+        self._wclos = {}         # local id -> (closure node, environment): closures that write to a sink they captured
+        self._wclos_ids = set()
+        self._scan_buffers()
         self.writer_fns = self._find_writer_fns()
+        self._scan_writer_closures()
         self.events = {}   # fn path -> [Emit|CallEv]
         self.params = {}   # fn path -> [param names]
         self.errors = {}   # fn path -> Unrecognised
@@ -1468,6 +1505,121 @@ class Extractor:
             except Unrecognised as u:
                 self.errors[p] = u
                 self.events[p] = []
+
+    # -- text buffers and writer closures ---------------------------------------------------------
+    BUFFER_WRITES = ("push_str", "push", "write_fmt", "write_str", "write_char")
+
+    def _scan_buffers(self):
+        """A local `String` that is only appended to (push_str / push / write! / `+=` / handed as `&mut` to a function that appends)
+        and then written to the sink as a whole, once (`writer.write_all(text.as_bytes())`), is the sink at one remove: what goes
+        into it is what comes out, in the same order. Any other use of the local (read, compared, cleared, moved) disqualifies it."""
+        for b in self.lib.bodies:
+            if b.get("hir") is None or "yaserde_tests" in b["path"]:
+                continue
+            try:
+                nb = H.norm_body(b)
+            except Unrecognised:
+                continue
+            decl = {}
+            for x in H.walk(nb["value"]):
+                if x.get("k") == "Let" and x["pat"].get("k") == "Binding" and (x["pat"].get("ty") or "").replace("alloc::", "std::") == "std::string::String" \
+                        and "Mut" in str(x["pat"].get("mode", "")):
+                    decl[x["pat"]["id"]] = x["pat"]["name"]
+            if not decl:
+                continue
+            flushed, spoiled = {}, set()
+
+            def local_of(e):
+                e = H.strip(e)
+                while e.get("k") == "AddrOf" or (e.get("k") == "Unary" and e.get("op") == "Deref") or \
+                        (e.get("k") == "MethodCall" and e["name"] in ("as_bytes", "as_str", "as_ref", "as_mut_str") and not e["args"]):
+                    e = H.strip(e["recv"] if e.get("k") == "MethodCall" else e["e"])
+                return e.get("id") if e.get("k") == "Path" and e.get("res") == "local" else None
+
+            def visit(n, role=None):
+                if isinstance(n, list):
+                    for y in n:
+                        visit(y)
+                    return
+                if not isinstance(n, dict):
+                    return
+                k = n.get("k")
+                if k == "Path" and n.get("res") == "local" and n.get("id") in decl:
+                    spoiled.add(n["id"])      # a use that none of the cases below accounted for
+                    return
+                if k == "MethodCall":
+                    l = local_of(n["recv"])
+                    if l in decl and n["name"] in self.BUFFER_WRITES:
+                        visit(n["args"])
+                        return
+                    if n["name"] in ("write_all", "write_str") and len(n["args"]) == 1 and local_of(n["args"][0]) in decl and local_of(n["recv"]) not in decl:
+                        flushed[local_of(n["args"][0])] = flushed.get(local_of(n["args"][0]), 0) + 1
+                        visit(n["recv"])
+                        return
+                if k == "AssignOp" and local_of(n.get("a") or {}) in decl and n.get("op") == "Add":
+                    visit(n.get("b"))
+                    return
+                if k == "Call":
+                    cp = H.callee_path(n) or ""
+                    cb = self.lib.body(cp)
+                    if cb is not None and cb.get("hir") is not None:
+                        ptys = [(q.get("ty") or "") for q in cb["hir"]["params"]]
+                        for i_, a in enumerate(n["args"]):
+                            a0 = H.strip(a)
+                            if i_ < len(ptys) and ptys[i_].replace(" ", "").replace("alloc::", "std::") == "&mutstd::string::String" and local_of(a0) in decl \
+                                    and a0.get("k") == "AddrOf":
+                                continue
+                            visit(a)
+                        visit(n["f"])
+                        return
+                for key, v in n.items():
+                    if key in ("pat",):
+                        continue
+                    if isinstance(v, (dict, list)):
+                        visit(v)
+            visit(nb["value"])
+            for l, name in decl.items():
+                if flushed.get(l) == 1 and l not in spoiled:
+                    self._buffers[l] = name
+
+    def _scan_writer_closures(self):
+        for b in self.lib.bodies:
+            if b.get("hir") is None or b.get("closure") or "yaserde_tests" in b["path"]:
+                continue
+            try:
+                nb = H.norm_body(b)
+            except Unrecognised:
+                continue
+            for x in H.walk(nb["value"]):
+                if x.get("k") == "Let" and x["pat"].get("k") == "Binding" and x.get("init") is not None:
+                    c = H.strip(x["init"])
+                    if c.get("k") == "Closure" and self._writes(c["body"]["value"]):
+                        self._wclos_ids.add(x["pat"]["id"])
+
+    def _type_arguments(self, e, path):
+        """{generic parameter of the callee: concrete type} for the type parameters the call fixes (lifetimes, and parameters that
+        stay generic — the sink `W` handed on — left out)"""
+        if not hasattr(self, "_fn_generics"):
+            self._fn_generics = {f["path"]: f.get("generics") or [] for f in self.lib.items.get("fns", [])}
+        names = self._fn_generics.get(path) or []
+        ga = (H.strip(e["f"]).get("gargs") if e.get("k") == "Call" else e.get("gargs")) or []
+        if not names or len(names) != len(ga):
+            return {}
+        generic_here = re.compile(r"^[A-Z]\w{0,2}$")
+        return {n: g for n, g in zip(names, ga) if not n.startswith("'") and g != n and not generic_here.match(g) and not g.startswith("'") and "impl " not in g}
+
+    def _string_sink_index(self, path):
+        """index of the `&mut String` parameter through which a writer function appends (None when its sink is a real writer)"""
+        b = self.lib.body(path)
+        if b is None or b.get("hir") is None:
+            return None
+        for i_, q in enumerate(b["hir"]["params"]):
+            t = (q.get("ty") or "").replace(" ", "").replace("alloc::", "std::")
+            if t == "&mutstd::string::String":
+                return i_
+            if _sink_type(q.get("ty") or ""):
+                return None
+        return None
 
     # -- which functions write --------------------------------------------------------------------
     def _find_writer_fns(self):
@@ -1483,6 +1635,8 @@ class Extractor:
                 continue
             cs = set()
             param_ids = {i for p in nb["params"] for i, _ in H.pat_bindings(p)}
+            string_params = {i for p, q in zip(nb["params"], b["hir"]["params"]) for i, _ in H.pat_bindings(p)
+                             if (q.get("ty") or "").replace(" ", "").replace("alloc::", "std::") == "&mutstd::string::String"}
             for x in H.exprs(nb["value"]):
                 if x.get("k") == "MethodCall" and x.get("name") in ("write_fmt", "write_all", "write_str"):
                     # only writes to a sink handed in as a parameter: `write!(local_string, ..)` builds a value, it emits nothing
@@ -1493,6 +1647,12 @@ class Extractor:
                     while r.get("k") == "AddrOf" or (r.get("k") == "Unary" and r.get("op") == "Deref"):
                         r = H.strip(r["e"])
                     if r.get("k") == "Path" and r.get("res") == "local" and r.get("id") in param_ids:
+                        direct.add(b["path"])
+                if x.get("k") == "MethodCall" and x.get("name") in ("push_str", "push") and string_params:
+                    r = H.strip(x["recv"])
+                    while r.get("k") == "AddrOf" or (r.get("k") == "Unary" and r.get("op") == "Deref"):
+                        r = H.strip(r["e"])
+                    if r.get("k") == "Path" and r.get("res") == "local" and r.get("id") in string_params:
                         direct.add(b["path"])
                 if x.get("k") in ("MethodCall", "Call"):
                     p = H.callee_path(x)
@@ -1582,6 +1742,17 @@ class Extractor:
                 return True
             if x.get("k") in ("MethodCall", "Call") and (H.callee_path(x) in self.writer_fns):
                 return True
+            if x.get("k") == "MethodCall" and x.get("name") in ("push_str", "push") and _plain_local(x["recv"]) in self._buffers:
+                return True
+            if x.get("k") == "MethodCall" and x.get("name") in ("push_str", "push") and "std::string::String" in (H.strip(x["recv"]).get("ty") or "") \
+                    and "&mut" in (H.strip(x["recv"]).get("ty") or ""):
+                return True       # appending to a buffer handed in as a parameter
+            if x.get("k") == "AssignOp" and _plain_local(x.get("a") or {}) in self._buffers:
+                return True
+            if x.get("k") == "Let" and x["pat"].get("k") == "Binding" and x["pat"].get("id") in self._buffers:
+                return True
+            if x.get("k") == "Call" and _plain_local(x["f"]) in self._wclos_ids:
+                return True
         return False
 
     def _record_dyn_choices(self, s, env):
@@ -1632,7 +1803,21 @@ class Extractor:
             return self._visit_block(fn, e["b"], env, ctx, out, how)
         if k == "Ret":
             return self._visit(fn, e["e"], env, ctx, out, "tail")
-        if k == "MethodCall" and e["name"] in ("write_all", "write_str") and len(e["args"]) == 1 and self._is_sink(e["recv"], env):
+        if k == "Call" and _plain_local(e["f"]) in self._wclos:
+            # a local closure that writes to the sink it captured: its body, with the arguments for its parameters
+            clo, cenv = self._wclos[_plain_local(e["f"])]
+            env_c = cenv.child()
+            for pat, a in zip(clo["body"]["params"], e["args"]):
+                bind_pattern(pat, self.NF.nf(a, env), env_c)
+            n0 = len(out)
+            self._visit(fn, clo["body"]["value"], env_c, ctx, out, how)
+            for ev in out[n0:]:
+                ev.site = H.sp(e)      # the line is written where the closure is called (all calls share the closure's own text)
+            return
+        if k == "AssignOp" and _plain_local(e.get("a") or {}) in self._buffers and e.get("op") == "Add":
+            e = {"k": "MethodCall", "name": "push_str", "recv": e["a"], "args": [e["b"]], "sp": e.get("sp"), "path": "String::push_str"}
+            k = "MethodCall"
+        if k == "MethodCall" and e["name"] in ("write_all", "write_str", "push_str", "push") and len(e["args"]) == 1 and self._is_sink(e["recv"], env):
             # `writer.write_all(text.as_bytes())`: the text verbatim
             v = self.NF.nf(e["args"][0], env)
             while v[0] == "call" and str(v[1]).rsplit("::", 1)[-1] in ("as_bytes", "as_str", "as_ref") and len(v[2]) == 1:
@@ -1643,6 +1828,8 @@ class Extractor:
                     v = ("lit", bytes(v[1]).decode("utf-8"))     # a byte-string literal: `write_all(b"}\n")`
                 except UnicodeDecodeError:
                     pass
+            if v[0] == "param" and str(v[1]).startswith("buffer:"):
+                return    # the buffer handed to the real sink: what it holds was accounted for where it was put in
             parts = (("lit", v[1]),) if v[0] == "lit" and isinstance(v[1], str) else (("hole", v, "display", "&str"),)
             for pp, extra in (canon_parts(parts, self._ce()) if CANON else [(parts, ())]):
                 out.append(Emit(fn, e, None, pp, ctx + extra, how, len(out), e["recv"]))
@@ -1651,7 +1838,15 @@ class Extractor:
             return   # formatting into a local value (String), not into the output
         if k == "MethodCall" and e["name"] == "write_fmt":
             fa = e["args"][0]
-            nf = self.NF.format_nf(fa, env)
+            if H.strip(fa).get("k") != "FormatArgs":
+                # `w.write_fmt(line)` with `line: fmt::Arguments` made by the caller (`emit(format_args!(..))`)
+                nf = self.NF.nf(fa, env)
+                if not (isinstance(nf, tuple) and nf[0] == "format"):
+                    nf = ("format", (("hole", nf, "display", "std::fmt::Arguments"),))
+                fa = None
+            else:
+                fa = H.strip(fa)
+                nf = self.NF.format_nf(fa, env)
             if CANON:
                 if getattr(self, "CE", None) is None:
                     self.CE = CallExpander(self.F)
@@ -1669,6 +1864,32 @@ class Extractor:
         if k == "MethodCall" and e["name"] in ("ok", "is_ok", "is_err", "unwrap_or_default", "unwrap_or") and self._writes(e["recv"]):
             return self._visit(fn, e["recv"], env, ctx, out, "swallowed")
         if k in ("MethodCall", "Call") and H.callee_path(e) in self.writer_fns:
+            si = self._string_sink_index(H.callee_path(e))
+            all_args = ([e["recv"]] if k == "MethodCall" else []) + list(e["args"])
+            if si is not None and not (si < len(all_args) and self._is_sink(all_args[si], env)):
+                return    # the function appends to a String of the caller's that is not on its way to the output: a value is built
+            tymap = self._type_arguments(e, H.callee_path(e))
+            if tymap and len(getattr(self, "_mono_stack", ())) < 3 and H.callee_path(e) not in getattr(self, "_mono_stack", ()):
+                # a generic helper called with concrete types (`facet::<i32>(..)`): its body for those types, in place — what a hole
+                # of type T prints is known only per instantiation
+                cb = self.lib.body(H.callee_path(e))
+                cnb = H.norm_body(cb)
+                if len(cnb["params"]) == len(all_args):
+                    env_c = Env()
+                    for pat, a in zip(cnb["params"], all_args):
+                        bind_pattern(pat, self.NF.nf(a, env), env_c)
+                    self._mono_stack = getattr(self, "_mono_stack", ()) + (H.callee_path(e),)
+                    saved = getattr(self.NF, "_tymap", None)
+                    self.NF._tymap = dict(saved or {}, **tymap)
+                    n0 = len(out)
+                    try:
+                        self._visit(fn, cnb["value"], env_c, ctx, out, how)
+                    finally:
+                        self.NF._tymap = saved
+                        self._mono_stack = self._mono_stack[:-1]
+                    for ev in out[n0:]:
+                        ev.site = H.sp(e)
+                    return
             args = []
             if k == "MethodCall":
                 args.append(self.NF.nf(e["recv"], env))
@@ -1783,6 +2004,23 @@ class Extractor:
         stmts = b["stmts"]
         for si, s in enumerate(stmts):
             sk = s.get("k")
+            if sk == "Let" and s["pat"].get("k") == "Binding" and s["pat"].get("id") in self._buffers:
+                # the buffer starts with what it is initialised with
+                v = self.NF.nf(s["init"], env2) if s.get("init") is not None else ("lit", "")
+                while isinstance(v, tuple) and v[0] == "call" and len(v[2]) == 1 and str(v[1]).rsplit("::", 1)[-1] in ("from", "to_string", "to_owned", "into", "from_str"):
+                    v = v[2][0]
+                if isinstance(v, tuple) and v[0] == "call" and str(v[1]).rsplit("::", 1)[-1] in ("new", "with_capacity"):
+                    v = ("lit", "")
+                if v != ("lit", ""):
+                    parts = v[1] if v[0] == "format" else ((("lit", v[1]),) if v[0] == "lit" and isinstance(v[1], str) else (("hole", v, "display", "std::string::String"),))
+                    for line in _lines_of_parts(parts):
+                        for pp, extra in (canon_parts(line, self._ce()) if CANON else [(line, ())]):
+                            out.append(Emit(fn, s["init"], None, pp, cur_ctx + extra, "stmt", len(out), s["pat"]))
+                env2.m[s["pat"]["id"]] = ("param", "buffer:" + s["pat"]["name"])
+                continue
+            if sk == "Let" and s["pat"].get("k") == "Binding" and s["pat"].get("id") in self._wclos_ids and s.get("init") is not None:
+                self._wclos[s["pat"]["id"]] = (H.strip(s["init"]), env2)
+                continue
             if sk == "Let":
                 init = s.get("init")
                 if init is not None and self._writes(init):
@@ -2099,6 +2337,18 @@ class EnvWalker:
             self._w(b["tail"], env2, cb, cur)
 
 
+def _variant_like(path):
+    segs = str(path).split("::")
+    return len(segs) >= 2 and segs[-1][:1].isupper() and segs[-2][:1].isupper()
+
+
+def _through_identity(n):
+    while isinstance(n, tuple) and n[0] == "call" and len(n[2]) == 1 and str(n[1]).rsplit("::", 1)[-1] in (
+            "to_string", "to_owned", "as_str", "as_ref", "clone", "deref", "into", "borrow", "into_owned", "as_deref"):
+        n = n[2][0]
+    return n
+
+
 def nf_simplify(n):
     """field of a struct literal -> the initialiser; element of a literal tuple by index"""
     if not isinstance(n, tuple):
@@ -2126,6 +2376,33 @@ def nf_simplify(n):
     if n and n[0] == "payload" and isinstance(n[2], tuple) and n[2][0] == "call" and isinstance(n[2][1], str) and n[2][1].startswith("ctor:") \
             and n[2][1].rsplit("::", 1)[-1] == str(n[1]).rsplit("::", 1)[-1] and len(n[2][2]) == 1:
         return n[2][2][0]      # `let Wrapper(x) = Wrapper(v)`: x is v
+    if n and n[0] == "match" and isinstance(n[1], tuple):
+        # a match on a value that is known to be one unit variant, or a choice (by tests) between such variants: the arm is known
+        # per branch — `match self.kind() { Kind::A => x, Kind::B => y }` with `kind()` an if/else over the members
+        sc = n[1]
+        if sc[0] == "const" and _variant_like(sc[1]):
+            short = sc[1].rsplit("::", 1)[-1]
+            for lab, val in n[2]:
+                l_ = str(lab).strip()
+                if "(" in l_ or "{" in l_ or "|" in l_:
+                    break
+                if l_.rsplit("::", 1)[-1] == short and ("::" in l_ or l_[:1].isupper()):
+                    return val
+                if l_ == "_" or (l_.isidentifier() and not l_[:1].isupper()):
+                    return val
+        if sc[0] == "ifelse" and all(isinstance(b_, tuple) and (b_[0] == "ifelse" or (b_[0] == "const" and _variant_like(b_[1]))) for b_ in sc[2:4]):
+            a_ = nf_simplify(("match", sc[2], n[2]))
+            b_ = nf_simplify(("match", sc[3], n[2]))
+            if a_[0] != "match" and b_[0] != "match":
+                return ("ifelse", sc[1], a_, b_)
+    if n and n[0] == "map" and isinstance(n[2], tuple) and n[2][0] == "payload" and n[2][2] == n[1]:
+        return n[1]            # `opt.map(|x| x)` (after identity steps: `.map(Rc::clone)`, `.map(ToOwned::to_owned)`)
+    if n and n[0] == "ifelse" and isinstance(n[1], tuple) and n[1][0] == "binop" and n[1][1] in ("Eq", "Ne"):
+        # `if a == b { b } else { a }` is a (and `if a != b { a } else { b }`): where they are equal either spelling is the value
+        a_, b_ = _through_identity(n[1][2]), _through_identity(n[1][3])
+        same, other = (n[2], n[3]) if n[1][1] == "Eq" else (n[3], n[2])
+        if {_through_identity(same), _through_identity(other)} == {a_, b_} and a_ != b_:
+            return other
     if n and n[0] == "payload" and n[1] == "Some" and isinstance(n[2], tuple) and n[2][0] == "ifelse":
         ov = _opt_view(n[2])
         if ov is not None and ov[0] is not True:
@@ -2579,7 +2856,7 @@ class CallExpander:
                 return None
             if x.get("k") == "Match" and not self.general_matches and option_match([pat_label(a["pat"]) for a in x.get("arms", [])], x.get("arms", [])) is None \
                     and not _bool_patterns(x.get("arms", [])) and not _literal_match(x.get("arms", [])) and not _matches_macro(x.get("arms", [])) \
-                    and not _two_way_split(x.get("arms", [])):
+                    and not _two_way_split(x.get("arms", [])) and not _binding_arms(x.get("arms", [])):
                 return None  # only matches that read as if/else (option, tuple of booleans, one variant against the rest); tables and variant dispatch stay opaque calls
         v = self.NF.nf(nb["value"], env)
         if any(r[0] in ("unknown", "local") for r in nf_roots(v)):
@@ -2715,9 +2992,11 @@ def canon_parts(parts, CE, limit=24):
 
 def _joined_list(e):
     """(items, separator) when the value is a list of texts joined with a literal separator: `list.join(", ")`"""
-    if isinstance(e, tuple) and e[0] == "call" and str(e[1]).rsplit("::", 1)[-1] in ("join", "concat") and e[2] and isinstance(e[2][0], tuple) and e[2][0][0] == "list":
+    if isinstance(e, tuple) and e[0] == "call" and str(e[1]).rsplit("::", 1)[-1] in ("join", "concat") and e[2] and isinstance(e[2][0], tuple) and e[2][0][0] in ("list", "tuple"):
         sep = e[2][1] if len(e[2]) > 1 else ("lit", "")
         if isinstance(sep, tuple) and sep[0] == "lit" and isinstance(sep[1], str):
+            if e[2][0][0] == "tuple":
+                return [("item", x) for x in e[2][0][1]], sep[1]      # an array literal of texts: `[a, b, c].join("\n")`
             return list(e[2][0][1]), sep[1]
     return None
 
